@@ -289,7 +289,7 @@ func Run(cfg *Config, prefix []int, scenario func()) *Trace {
 	case <-s.endCh:
 	case <-time.After(cfg.Watchdog):
 		// a goroutine is stuck in code that never yields: unrecoverable in-process
-		fmt.Printf("MC-HANG prefix=%v steps=%d\n", s.choicesSoFar(), s.steps)
+		fmt.Printf("\nMC-HANG prefix=%v steps=%d in=%s\n", s.choicesSoFar(), s.steps, hungFrame())
 		os.Stdout.Sync()
 		os.Exit(3)
 	}
@@ -313,6 +313,35 @@ func Run(cfg *Config, prefix []int, scenario func()) *Trace {
 	}
 	S = nil
 	return tr
+}
+
+// hungFrame names the innermost function of the library under test that a running goroutine is
+// executing (the code that loops without reaching a visible operation).
+func hungFrame() string {
+	buf := make([]byte, 1<<20)
+	buf = buf[:runtime.Stack(buf, true)]
+	const mod = "github.com/vapourismo/knx-go/"
+	for _, g := range strings.Split(string(buf), "\n\n") {
+		if !strings.Contains(g, "[running]") && !strings.Contains(g, "[runnable]") {
+			continue
+		}
+		// the outermost library frame (the goroutine's entry function) is stable across samples;
+		// the innermost one depends on where in the loop the sample was taken
+		found := ""
+		for _, line := range strings.Split(g, "\n") {
+			if strings.HasPrefix(line, mod) && !strings.HasPrefix(line, mod+"verifmc/") {
+				fn := line[len(mod):]
+				if i := strings.LastIndex(fn, "("); i > 0 {
+					fn = fn[:i]
+				}
+				found = strings.ReplaceAll(fn, " ", "")
+			}
+		}
+		if found != "" {
+			return found
+		}
+	}
+	return "unknown"
 }
 
 func (s *Sched) choicesSoFar() []int {
